@@ -60,7 +60,10 @@ type (
 	tupleV []Val
 	// listV is a slice known only as the concatenation of named segments
 	// (an input slice is one segment named by its access path).
-	listV struct{ segs []string }
+	listV struct {
+		segs    []string
+		aliasOf string // non-empty: this IS the named input slice (shares its backing array), not a copy
+	}
 	// refV is the address of a local variable (for &x passed to a callee).
 	refV struct {
 		env  *env
@@ -462,8 +465,16 @@ func (f *frame) store(l ast.Expr, v Val, e *env, define bool) {
 		}
 		if pv, ok := p.(ptrV); ok {
 			if src := asObj(v); src != nil {
+				// materialise lazily read input fields of the source first
+				if st, ok := src.typ.Underlying().(*types.Struct); ok && src.path != "" && src.path != "\x00zero" {
+					for i := 0; i < st.NumFields(); i++ {
+						fl := st.Field(i)
+						if _, has := src.fields[fl.Name()]; !has {
+							src.fields[fl.Name()] = f.inputAt(src.path+"."+fl.Name(), fl.Type())
+						}
+					}
+				}
 				pv.obj.fields = copyObj(src).fields
-				pv.obj.path = ""
 				return
 			}
 		}
@@ -1115,6 +1126,10 @@ func builtinModel(key string, recv Val, args []Val) (Val, bool) {
 		if ok1 && ok2 {
 			return cv{constant.MakeString(strings.TrimSuffix(a, b))}, true
 		}
+	case "reflect.DeepEqual":
+		if eq, ok := deepEqualVals(args[0], args[1]); ok {
+			return mk(eq), true
+		}
 	case "fmt.Sprintf", "fmt.Errorf", "errors.New":
 		if key == "fmt.Sprintf" {
 			return cv{constant.MakeString("<formatted>")}, true
@@ -1214,4 +1229,78 @@ func constKey(v constant.Value) string {
 		return constant.StringVal(v)
 	}
 	return v.ExactString()
+}
+
+// deepEqualVals models reflect.DeepEqual on the evaluator's values; ok=false
+// when the comparison is not decidable on these inputs.
+func deepEqualVals(a, b Val) (eq bool, ok bool) {
+	if pa, isP := a.(ptrV); isP {
+		if pb, isP2 := b.(ptrV); isP2 {
+			return deepEqualVals(pa.obj, pb.obj)
+		}
+		if _, isNil := b.(nilV); isNil {
+			return false, true
+		}
+		return false, false
+	}
+	isZeroish := func(v Val) (bool, bool) {
+		switch x := v.(type) {
+		case nilV:
+			return true, true
+		case listV:
+			return len(x.segs) == 0, true
+		case ordV:
+			return x.rank == 0, true
+		case cv:
+			switch x.v.Kind() {
+			case constant.Int:
+				n, _ := constant.Int64Val(x.v)
+				return n == 0, true
+			case constant.String:
+				return constant.StringVal(x.v) == "", true
+			case constant.Bool:
+				return !constant.BoolVal(x.v), true
+			}
+		case errV:
+			return !x.nonnil, true
+		}
+		return false, false
+	}
+	oa, okA := a.(*objV)
+	ob, okB := b.(*objV)
+	if okA && okB {
+		st, isStruct := oa.typ.Underlying().(*types.Struct)
+		if !isStruct {
+			return false, false
+		}
+		for i := 0; i < st.NumFields(); i++ {
+			name := st.Field(i).Name()
+			va, hasA := oa.fields[name]
+			vb, hasB := ob.fields[name]
+			if !hasA || !hasB {
+				return false, false // a lazily read input field: not materialised
+			}
+			e, ok := deepEqualVals(va, vb)
+			if !ok {
+				return false, false
+			}
+			if !e {
+				return false, true
+			}
+		}
+		return true, true
+	}
+	za, ok1 := isZeroish(a)
+	zb, ok2 := isZeroish(b)
+	if ok1 && ok2 {
+		if za && zb {
+			return true, true
+		}
+		if za != zb {
+			return false, true
+		}
+		// both non-zero: equal only if the very same abstract value
+		return showVal(a) == showVal(b), true
+	}
+	return false, false
 }
